@@ -69,6 +69,17 @@ func renderSub(b behaviour, name, scope string, variant int, terminal string) st
 			(b.Pos == "twice" && k <= 2) {
 			s.WriteString("  " + macro + "\n")
 		}
+		// decoys that must not expand: the macro of ANOTHER scope, and the macro words inside a sentence
+		if k == 2 && b.Pos != "lead2" && b.Pos != "twice" {
+			other := "DELIVER"
+			if scope == "deliver" {
+				other = "RECV"
+			}
+			s.WriteString("  #FASTLY " + other + "\n")
+		}
+		if k == 3 && b.Pos != "lead3" {
+			s.WriteString("  # keep the FASTLY " + strings.ToUpper(scope) + " macro of this subroutine\n")
+		}
 		fmt.Fprintf(&s, "  log \"b:%s:%d\";\n", scope, k)
 	}
 	if b.Site == scope {
